@@ -176,7 +176,8 @@ type c03Case struct {
 
 var c03Foreign = []string{"unary-explicit-ok-with-body", "unary-ok-status-no-body", "stream-trailer-explicit-ok", "stream-trailer-status-no-metadata",
 	"stream-reset-with-trailer", "stream-reset-bare", "stream-reset-after-body", "unary-nonok-with-body", "stream-error-trailer-with-details",
-	"stream-reset-untyped-with-trailer", "stream-reset-untyped-bare", "stream-reset-lowercase-type-with-trailer", "stream-reset-lowercase-type-after-body"}
+	"stream-reset-untyped-with-trailer", "stream-reset-untyped-bare", "stream-reset-lowercase-type-with-trailer", "stream-reset-lowercase-type-after-body",
+	"unary-answered-by-reset", "unary-answered-by-bare-trailer"}
 
 func c03Gen(tier string, seed int64, idx int) c03Case {
 	r := rng(seed, idx, "c03")
@@ -580,6 +581,11 @@ func c03ForeignRun(tier string, seed int64, idx int, c c03Case, res *core.Result
 			p.Send(ctx, &wire.Rpc{Id: id, Header: hdr(in), Status: okSt, Trailer: &goatorepo.Trailer{}})
 		case "unary-nonok-with-body":
 			p.Send(ctx, &wire.Rpc{Id: id, Header: hdr(in), Status: &goatorepo.ResponseStatus{Code: 9, Message: "nope"}, Body: body("x"), Trailer: &goatorepo.Trailer{}})
+		case "unary-answered-by-reset":
+			// what goat's own server sends when the method is a streaming one: the call was reset
+			p.Send(ctx, &wire.Rpc{Id: id, Header: hdr(in), Reset_: &goatorepo.Reset{Type: "RST_STREAM"}, Trailer: &goatorepo.Trailer{}})
+		case "unary-answered-by-bare-trailer":
+			p.Send(ctx, &wire.Rpc{Id: id, Header: hdr(in), Trailer: &goatorepo.Trailer{}})
 		default:
 			if in.GetBody() != nil || in.GetTrailer() != nil || in.GetReset_() != nil {
 				return // react to the open envelope only
@@ -662,6 +668,15 @@ func c03ForeignRun(tier string, seed int64, idx int, c c03Case, res *core.Result
 			}
 		case "unary-ok-status-no-body":
 			// no body: the README allows an empty body; success with empty reply or an error are both tolerated, a crash is not
+		case "unary-answered-by-reset":
+			if observed == nil {
+				res.Violate("peer-reset-reported-as-success/"+c.Foreign, "a unary call answered with a reset returned success (reply %q)", got)
+			}
+		case "unary-answered-by-bare-trailer":
+			// neither a reply nor a status: nothing the caller could take for the handler's result
+			if observed == nil && len(got) == 1 && len(got[0]) > 0 {
+				res.Violate("reply-invented", "a unary call answered with a bare trailer returned a non-empty reply %q", got[0])
+			}
 		case "unary-nonok-with-body":
 			if code != codes.FailedPrecondition {
 				res.Violate("nonok-status-lost", "unary reply with status 9 and a body: observed %v", observed)
@@ -700,7 +715,7 @@ func init() {
 	core.Register(&core.Prop{
 		ID:             "C03",
 		Level:          "exploration",
-		Rule:           "cases: (matrix) 24 RPCs per case cycling 4 RPC kinds x 11 error kinds (status x3, wrapped status, plain, context canceled/deadline, error whose GRPCStatus says OK, nil, io.EOF, wrapped io.EOF) x all 16 non-OK codes x message class {plain, empty, Unicode, 4 KiB} x 0..3 Any details x position {before any message, between, after the last}, unary also with a body alongside the error; (race) handler fails while the caller still sends, the trailer held in the server writer by a rendezvous hook while 1..4 late bodies arrive; (loss-before-trailer) the handler sends a message and fails but the connection is lost - with io.EOF, a wrapped io.EOF, a custom error or context.Canceled - before the trailer arrives: the caller must not observe success; (loss-after-trailer) the handler sends one message and fails; the caller starts receiving only after the complete response was read and the transport then failed: it must still see the messages and the status; (foreign) 13 reply shapes from a scripted peer (explicit OK + body, status without metadata, resets - typed RST_STREAM, untyped, lower-case - with/without trailer / after a body). Every third matrix RPC also sets binary response metadata through an MD literal with a mixed-case -bin key. Half of the matrix cases run behind pass-through server interceptors (plain / chained pairs). Every case is non-trivial; distinct = distinct descriptors.",
+		Rule:           "cases: (matrix) 24 RPCs per case cycling 4 RPC kinds x 11 error kinds (status x3, wrapped status, plain, context canceled/deadline, error whose GRPCStatus says OK, nil, io.EOF, wrapped io.EOF) x all 16 non-OK codes x message class {plain, empty, Unicode, 4 KiB} x 0..3 Any details x position {before any message, between, after the last}, unary also with a body alongside the error; (race) handler fails while the caller still sends, the trailer held in the server writer by a rendezvous hook while 1..4 late bodies arrive; (loss-before-trailer) the handler sends a message and fails but the connection is lost - with io.EOF, a wrapped io.EOF, a custom error or context.Canceled - before the trailer arrives: the caller must not observe success; (loss-after-trailer) the handler sends one message and fails; the caller starts receiving only after the complete response was read and the transport then failed: it must still see the messages and the status; (foreign) 15 reply shapes (incl. a unary call answered by a reset) from a scripted peer (explicit OK + body, status without metadata, resets - typed RST_STREAM, untyped, lower-case - with/without trailer / after a body). Every third matrix RPC also sets binary response metadata through an MD literal with a mixed-case -bin key. Half of the matrix cases run behind pass-through server interceptors (plain / chained pairs). Every case is non-trivial; distinct = distinct descriptors.",
 		Plan:           func(tier string, seed int64) int { return tierN(tier, 144, 4800) },
 		ThoroughRounds: 4,
 		Run:            c03Run,
